@@ -480,6 +480,14 @@ class Normalizer:
 
     def helper_for(self, call, root):
         """resolve a call to an inlinable NEW helper -> (ast.FunctionDef, drop_self) or None"""
+        r = self._helper_for(call, root)
+        if r is not None:
+            plain = ("staticmethod", "classmethod")
+            if any(not (isinstance(d, ast.Name) and d.id in plain) for d in r[0].decorator_list):
+                return None         # a decorator may change what a call does (functools.lru_cache memoises): the call is left alone
+        return r
+
+    def _helper_for(self, call, root):
         f = call.func
         cls = self.func.cls
         # nested helper defined inside the function
@@ -552,6 +560,7 @@ class Normalizer:
         if _zip_to_known_enumerate(node, self.known) and snap is not None and not os.environ.get("TYVERIF_NO_LOCALS"):
             rename_back(node, snap)
         _unzip_literal_tables(node)
+        _unroll_finite_reductions(node, snap if not os.environ.get("TYVERIF_NO_LOCALS") else None)
         _identity_comprehensions(node)
         _split_tuple_assignments(node, snap if not os.environ.get("TYVERIF_NO_LOCALS") else None)
         if snap is not None and not os.environ.get("TYVERIF_NO_LOCALS"):
@@ -1320,6 +1329,73 @@ def _rebound_before(fnode, lp, load):
                     return True
         cur, p = p, getattr(p, "_parent", None)
     return False
+
+
+def _unroll_finite_reductions(fnode, snapshot):
+    """sum / any / all over a generator whose iterable is a small literal table (a tuple / list / dict literal, possibly held in a NEW local
+    that is bound once and never modified; `.items()` / `.keys()` / `.values()` of such a dict) -> the explicit sum / or / and"""
+    snapshot = snapshot or {}
+
+    def literal_of(e):
+        if isinstance(e, (ast.Tuple, ast.List, ast.Dict)):
+            return e
+        if isinstance(e, ast.Name) and e.id not in snapshot:
+            ds = [st for st in ast.walk(fnode) if isinstance(st, ast.Assign) and len(st.targets) == 1 and isinstance(st.targets[0], ast.Name) and st.targets[0].id == e.id]
+            stores = [n for n in ast.walk(fnode) if isinstance(n, ast.Name) and n.id == e.id and isinstance(n.ctx, (ast.Store, ast.Del))]
+            if len(ds) != 1 or len(stores) != 1 or not isinstance(ds[0].value, (ast.Tuple, ast.List, ast.Dict)):
+                return None
+            for n in ast.walk(fnode):
+                if isinstance(n, ast.Call) and isinstance(n.func, ast.Attribute) and n.func.attr in MUTATORS and isinstance(n.func.value, ast.Name) and n.func.value.id == e.id:
+                    return None
+                if isinstance(n, ast.Subscript) and isinstance(n.ctx, (ast.Store, ast.Del)) and isinstance(n.value, ast.Name) and n.value.id == e.id:
+                    return None
+            return ds[0].value
+        return None
+
+    def items_of(it):
+        how = None
+        if isinstance(it, ast.Call) and isinstance(it.func, ast.Attribute) and it.func.attr in ("items", "keys", "values") and not it.args and not it.keywords:
+            how, it = it.func.attr, it.func.value
+        lit = literal_of(it)
+        if lit is None:
+            return None
+        if isinstance(lit, ast.Dict):
+            if any(k is None for k in lit.keys) or len(lit.keys) > MAX_UNROLL or not all(_literal_tree(k) and _literal_tree(v) for k, v in zip(lit.keys, lit.values)):
+                return None
+            if how == "items":
+                return [ast.Tuple(elts=[clone(k), clone(v)], ctx=ast.Load()) for k, v in zip(lit.keys, lit.values)]
+            if how == "values":
+                return [clone(v) for v in lit.values]
+            return [clone(k) for k in lit.keys]
+        if how is not None or len(lit.elts) > MAX_UNROLL or not all(_literal_tree(x) for x in lit.elts):
+            return None
+        return [clone(x) for x in lit.elts]
+
+    class R(ast.NodeTransformer):
+        def visit_Call(self, n):
+            self.generic_visit(n)
+            if not (isinstance(n.func, ast.Name) and n.func.id in ("sum", "any", "all") and len(n.args) == 1 and not n.keywords
+                    and isinstance(n.args[0], (ast.GeneratorExp, ast.ListComp)) and len(n.args[0].generators) == 1 and not n.args[0].generators[0].ifs):
+                return n
+            g = n.args[0].generators[0]
+            items = items_of(g.iter)
+            if not items:
+                return n
+            terms = []
+            for it_ in items:
+                m = {}
+                if not _bind_target(g.target, it_, m):
+                    return n
+                terms.append(_Subst(m).visit(clone(n.args[0].elt)))
+            if n.func.id == "sum":
+                out = terms[0]
+                for t_ in terms[1:]:
+                    out = ast.BinOp(left=out, op=ast.Add(), right=t_)
+            else:
+                out = ast.BoolOp(op=ast.Or() if n.func.id == "any" else ast.And(), values=terms) if len(terms) > 1 else terms[0]
+            return ast.copy_location(out, n)
+    R().visit(fnode)
+    ast.fix_missing_locations(fnode)
 
 
 def _unzip_literal_tables(fnode):
